@@ -1,4 +1,5 @@
 import StorageModel.C09.WfPres
+import StorageModel.C09.Errors
 import StorageModel.C09.Universe
 import StorageModel.Generated.C09Quirks
 /-
@@ -28,7 +29,18 @@ import StorageModel.Generated.C09Quirks
                   differ — decided for the harness schema by `universe_schema_ok`.
 
   Nothing is assumed about the *content*: the empty string in a (nullable) unique index, absent
-  link buckets, and several stores fixed one after the other are all covered.
+  link buckets, several stores fixed one after the other, and ANY NUMBER of corruptions aimed at
+  the same index value, the same entity or the same bucket (a duplicate whose index entry is
+  missing as well, a plain key sitting where a missing value bucket belongs, a stale and a missing
+  back-reference of one referrer, a dangling link next to a one-sided one, an emptied store whose
+  indexes still hold entries) are all covered.
+
+  `checkAllE` (C09/ModelE.lean) is the same run WITH the `return err` exits of the code that depend
+  on the state (UniqueIndexDuplicateError out of `processIntegrityFix`, a value bucket that cannot
+  be created over a plain key, NotFound out of `AddLink` / the fk `getIndexBucket` / `RemoveLink`):
+  an error return ends the run and rolls the caller's transaction back.  `run_never_fails` proves,
+  without any hypothesis, that no such exit is reachable, so every theorem about `checkAll` is a
+  theorem about the run the code performs; `fix_run_repairs` states convergence in that form.
 -/
 namespace StorageModel.Properties.C09
 open StorageModel StorageModel.C09
@@ -156,6 +168,32 @@ theorem fix_mirrors (S : Schema) (hS : SchemaOk S) (s : St) (hwf : s.WF) :
   unfold Report.about ConflictKind
   cases hm : r.msg <;> simp_all
 
+/-! ## no run aborts
+
+  An error return of `CheckIntegrity` makes the caller roll the transaction back: every repair of the
+  run is lost and the reports already handed to the sink claim repairs that did not happen.  The
+  failure exits are therefore part of the model (`checkAllE`), and unreachable. -/
+
+/-- **a run never aborts.** For every schema, both modes and every state (no hypothesis: any
+    combination of corruptions, on shared targets or not) the run with the code's failure exits
+    completes, with the state and the reports of `checkAll`. -/
+theorem run_never_fails (S : Schema) (fix : Bool) (s : St) :
+    checkAllE S fix s = .ok (checkAll S fix s).1 (checkAll S fix s).2 := checkAllE_ok S fix s
+
+/-- the same for one store's `BaseStore.CheckIntegrity` in a transaction of its own -/
+theorem store_run_never_fails (S : Schema) (fix : Bool) (sd : StoreDef) (s : St) :
+    sd.checkE S fix s = .ok (sd.check S fix s).1 (sd.check S fix s).2 := storeE_ok S fix sd s
+
+/-- **a single fix run repairs everything repairable**, stated about the run with failure exits: it
+    completes (nothing is rolled back), the committed state is well-formed, an immediate re-check
+    reports only genuine conflicts, and every remaining discrepancy is of a conflict kind. -/
+theorem fix_run_repairs (S : Schema) (hS : SchemaOk S) (s : St) (hwf : s.WF) :
+    ∃ s' rs, checkAllE S true s = .ok s' rs ∧ (checkAllE S true s).commit s = s' ∧ s'.WF ∧
+      (∀ r ∈ (checkAll S false s').2, Unfixable S r) ∧ (∀ d ∈ inconsistencies S s', ConflictKind S d) := by
+  refine ⟨(checkAll S true s).1, (checkAll S true s).2, run_never_fails S true s, ?_, fix_preserves_wf S hS s hwf,
+    fix_converges S hS s hwf, fun d hd => (fix_mirrors S hS s hwf d hd).1⟩
+  rw [run_never_fails]; rfl
+
 /-! ## the schema of the correspondence harness -/
 
 theorem universe_schema_ok : SchemaOk uniSchema := by decide
@@ -254,5 +292,72 @@ theorem one_transaction_fix_converges :
     ((checkAll uniSchema.reverse true twoDangling.toSt).2.map (·.msg) =
       [.lkOneSided b1 a1, .lkDangling a1 [98, 56], .lkDangling a1 [98, 57]]) ∧
     (checkAll uniSchema.reverse false (checkAll uniSchema.reverse true twoDangling.toSt).1).2 = [] := by decide
+
+/-! ## interacting corruptions: several corruptions aimed at one target, as instances -/
+
+/-- a1 and a2 both hold the name n1 (a genuine duplicate; a2's old entry n2 is stale) AND the index
+    entry for n1 is missing -/
+def dupMissing : StD :=
+  { ents :=
+      [ (things, [ ⟨a1, [("name", .str n1), ("home", .str b1), ("req", .str b1)], [("roles", [])]⟩,
+                   ⟨a2, [("name", .str n1), ("home", .str b1), ("req", .str b1)], [("roles", [])]⟩ ]),
+        (owners, [ ⟨b1, [], [("residents", [a1, a2])]⟩ ]) ]
+    uniq := [ ((things, "name"), [(n2, a2)]) ]
+    setx := [] }
+
+/-- one fix run re-creates the entry for the first holder, reports the second holder as an
+    unfixable duplicate, and completes; the re-check shows the duplicate only.  (With the puts
+    deferred to after the entity scan both holders are classified "missing" and the second put
+    fails with UniqueIndexDuplicateError: see the next example.) -/
+theorem dup_and_missing_entry_converges :
+    dupMissing.toSt.WF ∧
+    (checkAllE uniSchema true dupMissing.toSt).failed = false ∧
+    (checkAll uniSchema true dupMissing.toSt).2.map (fun r => (r.msg, r.fixed)) =
+      [(.uqStale n2 a2 n1, true), (.uqMissing n1 a1, true), (.uqDup n1 a1 a2, false)] ∧
+    (checkAll uniSchema false (checkAll uniSchema true dupMissing.toSt).1).2.map (·.msg) = [.uqDup n1 a1 a2] :=
+  ⟨dupMissing.wf (by decide), by decide, by decide, by decide⟩
+
+/-- the failure exit of `processIntegrityFix` is live: called for the second holder in the state the
+    first holder's repair produced, it returns the duplicate error -/
+example :
+    (match uqFixE things "name" false (uqRepair dupMissing.toSt things "name" n1 a1) a2 with
+      | .error .dupValue => true
+      | _ => false) = true := by decide
+
+/-- a plain (junk) key r1 sits exactly where the value bucket of the role a1 holds is missing -/
+def junkAtMissing : StD :=
+  { ents :=
+      [ (things, [ ⟨a1, [("name", .str n1), ("home", .str b1), ("req", .str b1)], [("roles", [r1])]⟩ ]),
+        (owners, [ ⟨b1, [], [("residents", [a1])]⟩ ]) ]
+    uniq := [ ((things, "name"), [(n1, a1)]) ]
+    setx := [ ((things, "roles"), [(r1, .junk)]) ] }
+
+theorem junk_at_missing_value_converges :
+    junkAtMissing.toSt.WF ∧
+    (checkAllE uniSchema true junkAtMissing.toSt).failed = false ∧
+    (checkAll uniSchema true junkAtMissing.toSt).2.map (fun r => (r.msg, r.fixed)) =
+      [(.sxJunk r1, true), (.sxMissing r1 a1, true)] ∧
+    (checkAll uniSchema false (checkAll uniSchema true junkAtMissing.toSt).1).2 = [] :=
+  ⟨junkAtMissing.wf (by decide), by decide, by decide, by decide⟩
+
+/-- and the failure exit of the second pass is live: asked for the value bucket while the plain key
+    is still there, it fails -/
+example : (sxStep2ValE things "roles" true a1 junkAtMissing.toSt r1).failed = true := by decide
+
+/-- the things store is EMPTY at check time while its indexes still hold entries, and an owner still
+    lists a thing as referrer and as member -/
+def emptiedStore : StD :=
+  { ents := [ (things, []), (owners, [ ⟨b1, [], [("things", [a1]), ("residents", [a1]), ("members", [a1])]⟩ ]) ]
+    uniq := [ ((things, "name"), [(n1, a1)]) ]
+    setx := [ ((things, "roles"), [(r1, .ids [a1]), (r2, .junk)]) ] }
+
+theorem emptied_store_converges :
+    emptiedStore.toSt.WF ∧
+    (checkAll uniSchema false emptiedStore.toSt).2.map (·.msg) =
+      [.uqDangling n1 a1, .sxDangling r1 a1, .sxJunk r2, .fkBackDangling b1 a1, .fkBackDangling b1 a1,
+       .lkDangling b1 a1] ∧
+    (checkAllE uniSchema true emptiedStore.toSt).failed = false ∧
+    (checkAll uniSchema false (checkAll uniSchema true emptiedStore.toSt).1).2 = [] :=
+  ⟨emptiedStore.wf (by decide), by decide, by decide, by decide⟩
 
 end StorageModel.Properties.C09
